@@ -2,6 +2,7 @@
 import TF.Drv.Proto
 import TF.Model.Sponge
 import TF.Model.HashTip5
+import TF.Gen.SpongeLoops
 /-! driver handler for the family `sponge` (C15): the abstract permutation is instantiated with the executable Tip5. -/
 namespace TF.Drv.Sponge
 open TF.Proto TF.Sponge TF.Gen
@@ -37,32 +38,94 @@ def runHist : List (List Nat) → List Nat → List (List Nat) → Option (List 
   | [], st, outs => some (outs.reverse, st)
   | c :: cs, st, outs => (step st c).bind fun r => runHist cs r.2 (r.1 :: outs)
 
+/-! ### the definitions regenerated from source (`TF/Gen/SpongeLoops.lean`, tools/rs2lean_bt4.py) evaluated next to the hand
+model: they work on raw Montgomery words (`bfe_new` in, `bfe_value` out) and call the regenerated permutation; a difference is
+printed as `GEN-MISMATCH` (and therefore shows up as a disagreement with the implementation), a false `_ok` flag (a panic of
+the Rust code) is the reply `panic` -/
+def encL (l : List Nat) : List Nat := l.map bfe_new
+def decL (l : List Nat) : List Nat := l.map bfe_value
+
+def both (gen model : String) : String :=
+  if gen == model then model else "GEN-MISMATCH gen=" ++ gen ++ " model=" ++ model
+
+/-- the regenerated definitions are slow (lists of unbounded naturals) and the `_ok` flags repeat the whole computation: the
+    values are evaluated on every small op and on a deterministic fraction of the large ones, the flags on an eighth
+    (chosen by a hash of the numbers in the op) -/
+def pick (l : List Nat) (m : Nat) : Bool := (l.foldl (fun a x => (a * 31 + x + 7) % 1000003) 17) % m == 0
+
+/-- one command of a history on the regenerated definitions: (no panic so far, output values, new raw state); `chk`: evaluate
+    the `_ok` flags -/
+def stepGen (chk : Bool) (st : List Nat) : List Nat → Option (Bool × List Nat × List Nat)
+  | 0 :: block =>
+      if block.length = 10 then some (!chk || Loops.tip5_absorb_ok st (encL block), [], Loops.tip5_absorb st (encL block)) else none
+  | [1] => let r := Loops.tip5_squeeze st; some (!chk || Loops.tip5_squeeze_ok st, decL r.1, r.2)
+  | [2, bound, num] =>
+      (Loops.tip5_sample_indices (num + 4001) st bound num).map fun r =>
+        (!chk || Loops.tip5_sample_indices_ok (num + 4001) st bound num, r.1, r.2)
+  -- `sample_scalars` is not regenerated: the hand model on the decoded state
+  | [3, num] => (sampleScalars tip5Perm (decL st) num).map fun r =>
+      (true, r.1.flatMap fun t => [t.1, t.2.1, t.2.2], encL r.2)
+  | 4 :: input =>
+      some (!chk || Loops.tip5_pad_and_absorb_all_ok st (encL input), [], Loops.tip5_pad_and_absorb_all st (encL input))
+  | _ => none
+
+def runHistGen (chk : Bool) : List (List Nat) → List Nat → List (List Nat) → Option (List (List Nat) × List Nat)
+  | [], st, outs => some (outs.reverse, st)
+  | c :: cs, st, outs => (stepGen chk st c).bind fun r => if r.1 then runHistGen chk cs r.2.2 (r.2.1 :: outs) else none
+
+def okGenL (ok : Bool) (r : Option (List Nat)) : String :=
+  if !ok then "panic" else match r with
+    | some l => "ok:" ++ fmtList (decL l)
+    | none => "diverge"
+
 def sponge : Handler
   | "rec_pad", [x] => do
       let inp ← vals? x
       pure (okLL (padAndAbsorbAll (fun (bs : List (List Nat)) b => bs ++ [b]) [] inp))
   | "new", [.nat d] => some (okL (some (newState (d == 1))))
-  | "init", [] => some (okL (some initState))
+  | "init", [] => some (both (okGenL Loops.tip5_init_ok Loops.tip5_init) (okL (some initState)))
   | "absorb", [s, b] => do
       let st ← state? s; let bl ← vals? b
-      if bl.length == 10 then pure (okL (some (absorb tip5Perm st bl))) else none
+      if bl.length == 10 then
+        pure (both (okGenL (!pick (st ++ bl) 8 || Loops.tip5_absorb_ok (encL st) (encL bl)) (some (Loops.tip5_absorb (encL st) (encL bl))))
+          (okL (some (absorb tip5Perm st bl))))
+      else none
   | "squeeze", [s] => do
       let st ← state? s
       let r := squeeze tip5Perm st
-      pure s!"ok:{fmtList r.1}|{fmtList r.2}"
-  | "hash_varlen", [x] => do let inp ← vals? x; pure (okL (hashVarlen tip5Perm inp))
+      let g := Loops.tip5_squeeze (encL st)
+      pure (both (if !pick st 8 || Loops.tip5_squeeze_ok (encL st) then s!"ok:{fmtList (decL g.1)}|{fmtList (decL g.2)}" else "panic")
+        s!"ok:{fmtList r.1}|{fmtList r.2}")
+  | "hash_varlen", [x] => do
+      let inp ← vals? x
+      let m := okL (hashVarlen tip5Perm inp)
+      if (inp.length ≤ 9 && pick inp 3) || (inp.length ≤ 120 && pick inp 16) then
+        pure (both (okGenL (!pick inp 8 || Loops.tip5_hash_varlen_ok (encL inp)) (Loops.tip5_hash_varlen (encL inp))) m)
+      else pure m
   | "hash10", [x] => do
       let inp ← vals? x
       if inp.length == 10 then pure (okL (some (hash10 tip5Perm inp))) else none
   | "hash_pair", [l, r] => do
       let a ← vals? l; let b ← vals? r
-      if a.length == 5 && b.length == 5 then pure (okL (some (hashPair tip5Perm a b))) else none
+      if a.length == 5 && b.length == 5 then
+        pure (both (okGenL (!pick (a ++ b) 8 || Loops.tip5_hash_pair_ok (encL a) (encL b)) (Loops.tip5_hash_pair (encL a) (encL b)))
+          (okL (some (hashPair tip5Perm a b))))
+      else none
   | "hist", [s, cs] => do
       let st ← state? s
       let cmds ← cs.natListList?
-      pure (match runHist cmds st [] with
+      let m := match runHist cmds st [] with
         | some (outs, fin) => s!"ok:{fmtListList outs}|{fmtList fin}"
-        | none => "panic")
+        | none => "panic"
+      let key := st ++ cmds.flatten
+      -- always on the directed rejection-path states (a lane holds p - 1)
+      let small := cmds.all fun c => c.length ≤ 40 && (c.drop 1).all (· ≤ 4294967296) && (c.head? != some 3 || c.all (· ≤ 40))
+      if small && ((st.contains (P - 1) && cmds.length ≤ 3 && pick key 3) || pick key 24) then
+        let g := match runHistGen (pick key 8) cmds (encL st) [] with
+          | some (outs, fin) => s!"ok:{fmtListList outs}|{fmtList (decL fin)}"
+          | none => "panic"
+        pure (both g m)
+      else pure m
   | _, _ => none
 
 end TF.Drv.Sponge
